@@ -21,6 +21,19 @@ FromYmdCases ==
   {[op |-> op, y |-> y, m |-> m, d |-> d, exp |-> FromYmdExp(y, m, d)] :
       op \in {"c_date_from_ymd", "c_dt_from_ymd"}, y \in Years, m \in 0..13, d \in 0..32}
 
+\* the same triples reached through a setter: the receiver supplies the other two fields
+\* (set_year(y) on y0-m-d constructs (y, m, d), and so on).  Bases: month ends and 29 February.
+SetBases == {<<y, m, d>> : y \in {2024, 2023, 2000, 1900, -1, -5, 1, 4},
+                          m \in {1, 2, 3, 4, 12}, d \in {1, 28, 29, 30, 31}}
+ValidBases == {b \in SetBases : ValidDate(b[1], b[2], b[3])}
+SetYmdCases ==
+  {[op |-> op, f |-> "year", base |-> Ymd2Dn(b[1], b[2], b[3]), v |-> y, exp |-> FromYmdExp(y, b[2], b[3])] :
+      op \in {"c_date_set", "c_dt_set"}, b \in ValidBases, y \in Years}
+  \cup {[op |-> op, f |-> "month", base |-> Ymd2Dn(b[1], b[2], b[3]), v |-> m, exp |-> FromYmdExp(b[1], m, b[3])] :
+      op \in {"c_date_set", "c_dt_set"}, b \in ValidBases, m \in 0..13}
+  \cup {[op |-> op, f |-> "day", base |-> Ymd2Dn(b[1], b[2], b[3]), v |-> d, exp |-> FromYmdExp(b[1], b[2], d)] :
+      op \in {"c_date_set", "c_dt_set"}, b \in ValidBases, d \in 0..32}
+
 \* base date of the year the setter is applied to: 1 July (1 August / 1 June in the two partial years)
 BaseMonth(y) == IF y = MinYmd[1] THEN 8 ELSE IF y = MaxYmd[1] THEN 6 ELSE 7
 SetDoyExp(y, n) == IF ValidYearDoy(y, n) THEN <<OkDn(YearDoy2Dn(y, n))>> ELSE <<ErrOOR>>
@@ -38,7 +51,7 @@ ReadCases ==
       op \in {"c_date_read", "c_dt_read"}, dn \in Days}
 
 Which == IOEnv.WHICH
-Cases == IF Which = "C01" THEN FromYmdCases \cup ReadCases
+Cases == IF Which = "C01" THEN FromYmdCases \cup SetYmdCases \cup ReadCases
          ELSE SetDoyCases \cup ReadCases
 
 ASSUME ndJsonSerialize(IOEnv.OUT, SetToSeq(Cases))
